@@ -6,6 +6,7 @@ from . import dag as D, real as R, uf as U, build
 
 REPLAY_DIR = os.environ.get('SYMX_REPLAY') or os.path.join(build.VERIF, 'replay')
 NAME_SUFFIX = ['']     # set while a task is re-run on an alternative path
+SEP_BUDGET = [6]       # per worker process: solver attempts to find an input that separates two structurally different computations
 OK = ('unsat', 'syntactic', 'int_ok')
 
 
@@ -436,7 +437,8 @@ class Scenario:
             # many structurally different results in one scenario and none of the first ones reproduced natively: do not spend
             # solver / replay time on each of them (the run is failing anyway: unconfirmed differences exit 1)
             return self._rec(name, 'uf', 'sat', time.time() - t, confirmed=False, note='recorded computations differ structurally; not replayed (per-scenario cap)')
-        if not self.dag.poisons_of([na, nb]) and self._uf_attempts <= 2 and len(self.dag.slice([na, nb])) < 4000:
+        if not self.dag.poisons_of([na, nb]) and self._uf_attempts <= 2 and SEP_BUDGET[0] > 0 and len(self.dag.slice([na, nb])) < 4000:
+            SEP_BUDGET[0] -= 1
             # the two recorded computations differ: ask the Real interpretation for an input that separates them
             try:
                 va, vb = self.enc.node(na), self.enc.node(nb)
@@ -472,6 +474,9 @@ class Scenario:
             base_sh.update(self.shadow_override)
         ntr = 24 if first_point is None else 1
         for trial in range(ntr):
+            self._native_runs = getattr(self, '_native_runs', 0) + 1
+            if self._native_runs > 80:
+                return {'confirmed': False, 'note': 'recorded computations differ structurally; native replay budget of this scenario (80 runs) used up'}
             pt = {}
             for nm, sh in base_sh.items():
                 if first_point is not None:
